@@ -6,7 +6,7 @@ import vlib
 from vlib import to_tangelo_gate, cyc_to_complex, frac_str
 
 CLAIM = {
- "text": "Proof (Lean 4), partial: model = exact <psi|H|psi> computed two ways (statevector route: overlap with the Pauli-circuit image; frequency route: measurement-basis rotation from the table regenerated from /repo, then the parity rule). Proved: the parity rule's sample values are +-1 and the one-term variance over any normalised frequency list equals 1 - E^2; the expectation is linear in the coefficients and the complex split (real part + i * imaginary part evaluated separately) recombines to the value of the complex operator; every row of the measurement-basis table regenerated from /repo rotates its Pauli letter into Z (kernel computation in Q(zeta_16) over the whole table); an identity term contributes its coefficient. Also proved, for every register size, every state and every Pauli word with distinct qubits inside the register: <M phi | chi> = <phi | M^dagger chi> for a one-qubit operator (pairing of the basis states), one-qubit operators on different qubits commute, the rotations RY(-pi/2) / RX(pi/2) / none satisfy B^dagger Z B = X / Y / Z (and the regenerated table is exactly these rows), the Z-string multiplies each amplitude by the parity sign of the masked bit string, hence the frequency route (rotate into the measurement basis, apply the parity rule to the exact outcome probabilities) equals the overlap <psi|P|psi> of the statevector route, term by term and for whole operators; instantiated for the executable amplitudes Q(zeta_16). The tie between these function-level statements and the array-based executable model / the real backends is the correspondence: both routes are evaluated exactly by the model on every generated case and every route of the real code is compared with that value. Finite shots: only that estimates lie within 6 reported standard errors and that variance/standard error follow the exact distribution.",
+ "text": "Proof (Lean 4), partial: model = exact <psi|H|psi> computed two ways (statevector route: overlap with the Pauli-circuit image; frequency route: measurement-basis rotation from the table regenerated from /repo, then the parity rule). Proved: the parity rule's sample values are +-1 and the one-term variance over any normalised frequency list equals 1 - E^2; the expectation is linear in the coefficients and the complex split (real part + i * imaginary part evaluated separately) recombines to the value of the complex operator; every row of the measurement-basis table regenerated from /repo rotates its Pauli letter into Z (kernel computation in Q(zeta_16) over the whole table); an identity term contributes its coefficient. Also proved, for every register size, every state and every Pauli word with distinct qubits inside the register: <M phi | chi> = <phi | M^dagger chi> for a one-qubit operator (pairing of the basis states), one-qubit operators on different qubits commute, the rotations RY(-pi/2) / RX(pi/2) / none satisfy B^dagger Z B = X / Y / Z (and the regenerated table is exactly these rows), the Z-string multiplies each amplitude by the parity sign of the masked bit string, hence the frequency route (rotate into the measurement basis, apply the parity rule to the exact outcome probabilities) equals the overlap <psi|P|psi> of the statevector route, term by term and for whole operators; instantiated for the executable amplitudes Q(zeta_16). The array-based executable model is PROVED to compute these function-level quantities (expectWord_is_specified: the driver's statevector route is inner n psi (P psi); freqRoute_is_specified: its frequency route - rotations read from the regenerated measurement-basis table, parity rule on exact frequencies - is the same number; routes_agree_on_driver), for every word inside the register and every state. The tie to the real backends is the correspondence: both routes are evaluated exactly by the model on every generated case and every route of the real code is compared with that value. Finite shots: only that estimates lie within 6 reported standard errors and that variance/standard error follow the exact distribution.",
  "note": "Trusted: Lean kernel + standard axioms; cirq/sympy simulators; numpy; scipy sampler. Coefficients are dyadic rationals so that floats are exact; tolerance 1e-8.",
  "technique": "Lean 4 theorems (route equality for all states and register sizes via the adjoint lemma, variance identity, linearity/complex split, basis-rotation identities) + exact route-by-route correspondence against the real backends"}
 
